@@ -73,7 +73,7 @@ func propC18(w *World, r *Report, tier string) {
 	serialiserRuns(w, r, "uePolicyContainer", func(f *types.Func) bool {
 		return f.Name() == "MarshalBinary" || strings.HasPrefix(f.Name(), "Encode") || f.Name() == "UePolDeliverySerEncode"
 	})
-	r.Expect("seq.len-covers", 3)
+	r.Expect("seq.len-covers", 1)
 	uePolPairs := [][2]string{
 		{"Instruction.MarshalBinary", "parseInstruction"},
 		{"UEPolicyPart.MarshalBinary", "parseUEPolicyPart"},
@@ -87,15 +87,15 @@ func propC18(w *World, r *Report, tier string) {
 		seqDual(w, r, "uePolicyContainer", pr[0], pr[1], semOK[pr[0]])
 	}
 	checkParserSeqRules(w, r, "uePolicyContainer", nil)
-	r.Expect("seq.fresh-elem", 5)
+	r.Expect("seq.fresh-elem", 1)
 	checkSerialiserLoops(w, r, "uePolicyContainer", func(fn *ssa.Function) bool {
 		return fn.Name() == "MarshalBinary" || strings.HasPrefix(fn.Name(), "Encode")
 	})
-	r.Expect("seq.all-items", 5)
+	r.Expect("seq.all-items", 1)
 	checkUePolShapes(w, r)
 	checkPointerFieldWrites(w, r, "uePolicyContainer")
 	checkFreshDecodeTargets(w, r, "uePolicyContainer", "UePolDeliverySer.UePolDeliverySerDecode")
-	r.Expect("dec.fresh-target", 3)
+	r.Expect("dec.fresh-target", 1)
 	// PLMN octets of the section-management sublists: same TS 24.008 digit order as every other PLMN encoder
 	checkPlmnEncoders(w, r, map[string]bool{"uePolicyContainer.SubList": true, "uePolicyContainer.SubResult": true})
 	lenFromContent(w, r, "uePolicyContainer", func(name string) bool {
@@ -282,6 +282,7 @@ func checkUePolShapes(w *World, r *Report) {
 		r.Site("walk.uepol")
 		it := NewInterp(w)
 		it.Fuel = 300000
+		it.UseInitValues = true
 		readerModels(it)
 		st := it.NewState()
 		seedIOErrors(it, st)
